@@ -29,7 +29,7 @@ type C14Hist struct {
 }
 
 func genC14Hist(t *rapid.T) C14Hist {
-	h := C14Hist{TimeoutMs: rapid.SampledFrom([]int{1, 50, 1000, 16999, 17000, 17001, 30000, 300000}).Draw(t, "timeout")}
+	h := C14Hist{TimeoutMs: rapid.SampledFrom([]int{2000, 5000, 16999, 17000, 17001, 30000, 300000}).Draw(t, "timeout")} // >= 2 s: the fake socket treats a deadline that is already due when set as expiry (fast close); a tiny timeout would look the same under scheduling delay
 	n := rapid.IntRange(1, 14).Draw(t, "nops")
 	writes := 0
 	firstDNS := false
